@@ -29,6 +29,8 @@ EXACT_BOUNDARY = {"interval", "circle", "para", "tri", "sphere"}
 def prims(tier):
     out = L.leaves1(tier) + L.leaves2("thorough") + L.leaves3(tier)
     out += [L.Pt([0.3, 0.4]), L.Pt([L.aff(0, t=1), 0.5])]
+    # vertex orientation that flips with the parameter (mixed orientations inside one batch)
+    out += [L.T([0, 0], [1, 0], [0.3, L.aff(-0.5, t=1.25)]), L.P([0, 0], [1, 0], [0.2, L.aff(-0.5, t=1.25)])]
     return L.dedupe(out)
 
 
@@ -229,11 +231,17 @@ def run_item(item):
                             viol("C10|error|%s|density-%s|%s" % (err[1], mode, top_sig(a)), "sample(%s, d=%g) at %s raised %s" % (mode, d, th, err[2]))
                         continue
                     cnt = len(out)
-                    ceil_n = math.ceil(want - 1e-6 * max(1.0, want))
+                    # the documented count is ceil(density * volume()): replicate it in float32 from the library's own
+                    # volume (which is compared with the true measure separately), so that no slack is needed
+                    try:
+                        v_lib = float(torch.as_tensor(Bd.build_tp(a).volume(prm) if th else Bd.build_tp(a).volume()).reshape(-1)[0])
+                    except Exception:
+                        v_lib = true_v
+                    ceil_n = int(math.ceil(float(np.float32(d) * np.float32(v_lib))))
                     if mode == "random":
                         if exact:
-                            if abs(cnt - ceil_n) > (1 if abs(want - round(want)) < 1e-4 * max(1, want) else 0):
-                                viol("C10|density-count|%s" % kind_sig(a), "random sampling with d=%g at %s returned %d points, ceil(d*measure)=ceil(%.4f)=%d" % (d, th, cnt, want, ceil_n))
+                            if cnt != ceil_n:
+                                viol("C10|density-count|%s" % kind_sig(a), "random sampling with d=%g at %s returned %d points, ceil(d*volume())=ceil(%g*%.7g)=%d" % (d, th, cnt, d, v_lib, ceil_n))
                             else:
                                 res["outcomes"].append(st + "|random")
                         else:
@@ -243,7 +251,7 @@ def run_item(item):
                                 res["outcomes"].append(st + "|random")
                     else:
                         slack = 0 if exact else int(0.15 * want + 3)
-                        if cnt > ceil_n + slack + (1 if abs(want - round(want)) < 1e-4 * max(1, want) else 0):
+                        if cnt > ceil_n + slack:
                             viol("C10|grid-density-too-many|%s" % top_sig(a), "grid sampling with d=%g at %s returned %d points, more than ceil(d*measure)=%d" % (d, th, cnt, ceil_n))
                         elif a["k"] in ("interval", "para") and cnt:
                             bad = _regular(a, out, vals1)
